@@ -11,6 +11,7 @@ import Gts.Lemmas.MarksOps
 import Gts.Lemmas.MarksCoords
 import Gts.Lemmas.MarkGuardOps
 import Gts.Spec.Read
+import Gts.Bridge.SeqRotate
 namespace Gts.C04
 open Gts Loc
 
@@ -339,5 +340,27 @@ theorem rotate_feature_coords (s : Gts.Seq) (n : Int) (hL : 0 < s.len) (f : Feat
     mem_of_perm_map (rotate_table_perm s n) hf, rfl, rfl, ?_⟩
   have hr : 0 ≤ rotN n s.len := by rw [rotN_eq_emod n s.len hL]; exact Int.emod_nonneg _ (by omega)
   exact rotate_coords f.loc (rotN n s.len) s.len hL hr hw hnn ha
+
+/-! ### the statements above, for the code AS IT IS WRITTEN NOW
+
+`Gts.Gen.seqRotate` is regenerated from sequence.go on every run (go2lean/gseq.go: the loop `for n < 0` literally,
+with fuel); `Gts/Bridge/SeqRotate.lean` proves it equal to the model on every non-empty sequence. -/
+
+/-- **`gts.Rotate` as written**: on a non-empty sequence it does not panic for any `n` (given `-n` units of fuel for
+the normalisation loop), residue `k` moves to position `(k + n) mod L`, no feature is lost or duplicated, and the
+metadata is untouched -/
+theorem gen_rotate_spec {ι : Type} (fuel : Nat) (info : ι) (s : Gts.Seq) (n : Int) (hL : 0 < s.len) (hf : -n ≤ fuel) :
+    ∃ ff p, Gen.seqRotate fuel info s.feats s.bytes n = .ok (info, ff, p) ∧
+      (∀ k : Nat, k < s.bytes.length → p[((k + n) % s.len).toNat]? = s.bytes[k]?) ∧
+      ff.Perm (s.feats.map fun f => { f with loc := (f.loc.expand 0 (rotN n s.len)).normalize s.len }) :=
+  ⟨_, _, Bridge.seqRotate_eq fuel info s n hL hf, fun k hk => rotate_bytes_get s n k hk, rotate_table_perm s n⟩
+
+/-- **`gts.Rotate` as written** panics on the empty sequence (`n %= 0`) -/
+theorem gen_rotate_empty_panics {ι : Type} (fuel : Nat) (info : ι) (feats : List Feature) (n : Int) :
+    Gen.seqRotate fuel info feats [] n = .error .panic :=
+  Bridge.seqRotate_panic fuel info feats n
+
+-- non-vacuity
+example : 0 < (⟨[], [65, 67, 71]⟩ : Gts.Seq).len ∧ -(-7 : Int) ≤ (7 : Nat) := by decide
 
 end Gts.C04
